@@ -2,7 +2,7 @@
    case and renders the result the way harness/src/bin/c19/typed.rs renders the implementation's. *)
 From Coq Require Import String.
 From AV Require Import Lib.Base Lib.V.
-From AV Require Import Panic.Str Panic.CDisp Panic.RangeHdr Panic.ConnInfo Panic.HdrWriter Panic.HeadPhase.
+From AV Require Import Panic.Str Panic.CDisp Panic.RangeHdr Panic.ConnInfo Panic.HdrWriter Panic.HeadPhase Panic.TypedHdr.
 From AV Require Gen.Consts.
 Open Scope N_scope.
 
@@ -20,7 +20,14 @@ Inductive case :=
 | KConn (fwd : list bytes) (xp xh xf host : option bytes)
 | KEnc (dlen cap : N) (hdrs : list (N * N))
 | KHeadReq (buf : list piece) (hp : hpr) (method_ok uri_ok is_post is_connect : bool)
-| KHeadResp (buf : list piece) (hp : hpr) (code : N).
+| KHeadResp (buf : list piece) (hp : hpr) (code : N)
+(* typed headers; qtab: what std's f32 parsing + Quality::try_from answers on the candidate q-values *)
+| KEtag (s : bytes)
+| KQItem (s : bytes) (qtab : list (bytes * N))
+| KIfNoneMatch (vals : list bytes)
+| KIfRange (v : option bytes)
+| KAcceptEnc (vals : list bytes) (qtab : list (bytes * N))
+| KCRange (s : bytes).
 
 Definition BASE : N := 4096.   (* the buffer's address in the pointer arithmetic of `record` *)
 Definition hp_of (h : hpr) : hp_res :=
@@ -69,6 +76,17 @@ Definition VSat (full : N) (s : spec) : V :=
   | Val o => VOpt (fun ab : N * N => VT "r" [VN (fst ab); VN (snd ab)]) o
   end.
 
+Definition qlookup (tab : list (bytes * N)) (v : bytes) : option N :=
+  match find (fun p : bytes * N => bytes_eqb (fst p) v) tab with Some p => Some (snd p) | None => None end.
+Definition etag_item : bytes -> R (option (bool * bytes)) :=
+  entity_from_str Consts.ETAG_MIN_LEN Consts.ETAG_STRONG_MIN_LEN Consts.ETAG_WEAK_MIN_LEN.
+Definition VEtag (e : bool * bytes) : V := VT "etag" [VBool (fst e); VBytes (snd e)].
+Definition VPref (p : (unit + bytes) * N) : V :=
+  match fst p with
+  | inl _ => VT "any" [VN (snd p)]
+  | inr e => VT "enc" [VBytes e; VN (snd p)]
+  end.
+
 Definition LOCALHOST : bytes := [108; 111; 99; 97; 108; 104; 111; 115; 116; 58; 56; 48; 56; 48].
 
 Definition run_C19 (c : case) : V :=
@@ -106,4 +124,51 @@ Definition run_C19 (c : case) : V :=
       let buf := bytes_of ps in let hp := hp_of h in
       VT "head" [VBool (hp_okb Consts.H1_MAX_HEADERS BASE buf hp);
                  VDres (response_decode Consts.H1_MAX_HEADERS Consts.H1_MAX_BUFFER_SIZE true buf BASE hp code)]
+  | KEtag s =>
+      if utf8_valid s then
+        match etag_item s with
+        | Panic => VPanic
+        | Val None => VT "err" []
+        | Val (Some e) => VEtag e
+        end
+      else VT "notutf8" []
+  | KQItem s qtab =>
+      if utf8_valid s then
+        match qitem_from_str (fun x => Val (Some x)) (qlookup qtab) Consts.QITEM_MIN_ATTR_LEN Consts.QITEM_MAX_QVAL_LEN s with
+        | Panic => VPanic
+        | Val None => VT "err" []
+        | Val (Some (item, q)) => VT "qi" [VBytes item; VN q]
+        end
+      else VT "notutf8" []
+  | KIfNoneMatch vals =>
+      match any_or_items etag_item vals with
+      | Panic => VPanic
+      | Val None => VT "err" []
+      | Val (Some (inl _)) => VT "any" []
+      | Val (Some (inr l)) => VT "items" [VL (map VEtag l)]
+      end
+  | KIfRange v =>
+      match from_one_raw_str_g etag_item v with
+      | Panic => VPanic
+      | Val None => VT "noetag" []          (* the HttpDate arm (httpdate crate) or Err *)
+      | Val (Some e) => VEtag e
+      end
+  | KAcceptEnc vals qtab =>
+      match from_comma_delimited_g
+              (qitem_from_str (preference_from_str encoding_from_str) (qlookup qtab)
+                 Consts.QITEM_MIN_ATTR_LEN Consts.QITEM_MAX_QVAL_LEN) vals [] with
+      | Panic => VPanic
+      | Val None => VT "err" []
+      | Val (Some l) => VT "ae" [VL (map VPref l)]
+      end
+  | KCRange s =>
+      if utf8_valid s then
+        match content_range_from_str s with
+        | Panic => VPanic
+        | Val None => VT "err" []
+        | Val (Some (CRUnreg u r)) => VT "unreg" [VBytes u; VBytes r]
+        | Val (Some (CRBytes rg il)) =>
+            VT "bytes" [VOpt (fun ab : N * N => VT "r" [VN (fst ab); VN (snd ab)]) rg; VOpt VN il]
+        end
+      else VT "notutf8" []
   end.
